@@ -101,7 +101,7 @@ CHECKS = {
              "with blockMesh's multi-grading law; SizesJudge.tla (TLC) decides each record: same physical cell sequence from "
              "every block sharing an edge, preserved size/ratio on every wire of the chop's family at the geometrically "
              "same end (orientation propagated through the recorded topology). Round shapes with arcs/splines likewise."
-             " Half of the lattice configurations use a product grid with one displaced vertex (exactly one of four parallel edges differs). The repository's example scripts are run unmodified as recorded executions and every dictionary they write is judged by File.tla (SizesJudge SharedSeq). Four lattice configurations in five are written a second time after one mesh vertex was moved (no backport) and the second file is judged the same way.",
+             " Half of the lattice configurations use a product grid with one displaced vertex (exactly one of four parallel edges differs). The repository's example scripts are run unmodified as recorded executions and every dictionary they write is judged by File.tla (SizesJudge SharedSeq). Every lattice configuration without arcs is written a second time after one mesh vertex was moved (no backport) and the second file is judged the same way.",
         note="Sizes are abstracted to integer codes round(1e6 ln(size)) and compared with tolerance 3e-5; spline edge lengths "
              "are polyline approximations (only used for equality between blocks). Families with two different user laws are "
              "not generated (the statement does not say which law wins).",
